@@ -35,6 +35,7 @@ class World:
         elif callable(users):
             users = users(self.base)
         self.users = users
+        self.socket_timeout = server_kwargs.get("socket_timeout")
         self.host, self.port = host, port
         self.factory = spyfs.make_spy(BACKENDS[backend], self.ctl)
         self.server = aioftp.Server(users, path_io_factory=self.factory, **server_kwargs)
@@ -97,7 +98,16 @@ class World:
         for t in self.net.transports:
             if (t.side == "accept" and t.state == simnet.CLOSING and t.conn.client.state == simnet.OPEN
                     and t.out.sendbuf and t.conn.client.held_bytes):
-                continue  # given up by the server; the rest is TCP's business: the peer is alive but not reading
+                # close() was called; unsent bytes wait for a peer that is alive but does not read.  Without a configured
+                # socket_timeout nothing bounds that (TCP's business).  With one, the peer must not hold the socket longer
+                # than a write may take (C16: "cannot hold server resources beyond the configured bounds").
+                st = self.socket_timeout
+                age = self.net.loop.time() - (t.close_called_at if t.close_called_at is not None else self.net.loop.time())
+                if st is None or age <= st + 0.01:
+                    continue
+                out.append(f"lingering-transport c{t.conn.id} (port {t.conn.port}): close() was called {age:.2f}s ago, socket_timeout is "
+                           f"{st}, the peer does not read and still holds the server's socket with {len(t.out.sendbuf)} unsent bytes")
+                continue
             if t.side == "accept" and t.state != simnet.CLOSED:
                 out.append(f"server-side transport c{t.conn.id} (port {t.conn.port}) still {t.state}")
             elif t.side == "accept" and t.closed_by_gc:
